@@ -334,4 +334,7 @@ def run(tier, seed):
         # ---- decoder objects do not accumulate from member to member (heap bound): the slot rules of C20 ------------------
         from .c20 import decoder_slot_rules
         decoder_slot_rules(rep, ctx, mod, prefix="C20.")
+        # ---- the end of the archive is reported, not the previous member again (rule shared with C12) --------------------------
+        from .c12 import end_consistency_rules
+        end_consistency_rules(rep, ctx, mod, prefix="C12.")
     return rep.finish(seed)
